@@ -9,6 +9,8 @@ pub fn exec_oracle(kind: &str, fields: &[&str]) -> String {
         "S_C12" => oracle_c12(fields),
         "S_C03" => oracle_c03(fields),
         "S_C04" => oracle_c04(fields),
+        "S_C07" => oracle_c07(fields),
+        "S_C07M" => oracle_c07m(fields),
         _ => "bad-case".to_string(),
     }
 }
@@ -341,4 +343,193 @@ fn oracle_c04(fields: &[&str]) -> String {
         }
     }
     "oracle pass".to_string()
+}
+
+// ----- C07: Helmert against the EPSG guidance-note formulas and its own algebraic laws ------
+
+fn parse_hset(s: &str) -> Option<crate::gens::c07::HSet> {
+    let (flags, vals) = s.split_once(':')?;
+    let v: Vec<f64> = vals.split(',').map(parse_f).collect();
+    if v.len() != 16 {
+        return None;
+    }
+    Some(crate::gens::c07::HSet {
+        t: [v[0], v[1], v[2]],
+        r: [v[3], v[4], v[5]],
+        s: v[6],
+        dt: [v[7], v[8], v[9]],
+        dr: [v[10], v[11], v[12]],
+        ds: v[13],
+        pv: flags.starts_with('P'),
+        exact: flags.ends_with('E'),
+        t_epoch: v[14],
+        t_obs: if v[15].is_nan() { None } else { Some(v[15]) },
+    })
+}
+
+fn apply_def(def: &str, dir: Direction, data: &[Coor4D]) -> Result<(usize, Vec<Coor4D>), String> {
+    let mut ctx = Minimal::default();
+    let op = ctx.op(def).map_err(|e| format!("instantiation of {def:?}: {}", err_class(&e)))?;
+    let mut d = data.to_vec();
+    let n = ctx.apply(op, dir, &mut d).map_err(|e| format!("apply: {}", err_class(&e)))?;
+    Ok((n, d))
+}
+
+fn oracle_c07(fields: &[&str]) -> String {
+    let Some(h) = parse_hset(fields[0]) else { return "bad-case".to_string() };
+    let data = parse_data(fields[1]);
+    let arcsec = std::f64::consts::PI / 180.0 / 3600.0;
+    let def = h.scalar_def(true);
+    let (n, out) = match apply_def(&def, Fwd, &data) {
+        Ok(x) => x,
+        Err(e) => return format!("oracle FAIL {e}"),
+    };
+    if n != data.len() {
+        return format!("oracle FAIL count {n} of {}", data.len());
+    }
+    // (1) alias spellings are interchangeable, bit for bit
+    match apply_def(&h.list_def(true), Fwd, &data) {
+        Ok((_, o2)) => {
+            if dump_data(&o2) != dump_data(&out) {
+                return format!("oracle FAIL alias spellings differ: {} vs {}", def, h.list_def(true));
+            }
+        }
+        Err(e) => return format!("oracle FAIL {e}"),
+    }
+    // (2) the fourth coordinate is untouched
+    for (a, b) in data.iter().zip(out.iter()) {
+        if a[3].to_bits() != b[3].to_bits() {
+            return "oracle FAIL fourth coordinate changed".to_string();
+        }
+    }
+    // (3) every tuple transformed at its own epoch: reference per EPSG guidance note 7-2
+    //     (small angle: the published matrix; exact: composition of the three elementary rotations,
+    //     checked through orthogonality, determinant and agreement to second order instead)
+    for (c, o) in data.iter().zip(out.iter()) {
+        let t = if h.dynamic() { h.t_obs.unwrap_or(c[3]) } else { h.t_epoch };
+        let dt = t - h.t_epoch;
+        let tt = [h.t[0] + h.dt[0] * dt, h.t[1] + h.dt[1] * dt, h.t[2] + h.dt[2] * dt];
+        let sign = if h.pv { 1.0 } else { -1.0 };
+        let r = [
+            sign * (h.r[0] + h.dr[0] * dt) * arcsec,
+            sign * (h.r[1] + h.dr[1] * dt) * arcsec,
+            sign * (h.r[2] + h.dr[2] * dt) * arcsec,
+        ];
+        let s = 1.0 + (h.s + h.ds * dt) * 1e-6;
+        // position vector small-angle matrix
+        let m = [[1.0, -r[2], r[1]], [r[2], 1.0, -r[0]], [-r[1], r[0], 1.0]];
+        let want: Vec<f64> = (0..3).map(|i| tt[i] + s * (m[i][0] * c[0] + m[i][1] * c[1] + m[i][2] * c[2])).collect();
+        let angle = r.iter().fold(0.0f64, |a, b| a.max(b.abs()));
+        let size = c[0].abs().max(c[1].abs()).max(c[2].abs()).max(1.0);
+        // exact mode differs from the linearised matrix by second order terms
+        let tol = if h.exact { 3.0 * angle * angle * size + 1e-6 } else { 1e-6 };
+        for i in 0..3 {
+            if (o[i] - want[i]).abs() > tol {
+                return format!(
+                    "oracle FAIL epoch/convention: element {i} is {} but the guidance-note formula gives {} (tol {tol:e}) for {def} at t={}",
+                    o[i], want[i], c[3]
+                );
+            }
+        }
+    }
+    // (4) similarity (exact mode): distances scale by S; (5) the linear part is a proper rotation
+    if h.exact && !h.dynamic() && data.len() >= 2 {
+        let s = 1.0 + h.s * 1e-6;
+        let d0 = ((data[0][0] - data[1][0]).powi(2) + (data[0][1] - data[1][1]).powi(2) + (data[0][2] - data[1][2]).powi(2)).sqrt();
+        let d1 = ((out[0][0] - out[1][0]).powi(2) + (out[0][1] - out[1][1]).powi(2) + (out[0][2] - out[1][2]).powi(2)).sqrt();
+        if (d1 - s.abs() * d0).abs() > 1e-6 * (1.0 + d0 * 1e-7) {
+            return format!("oracle FAIL similarity: distance {d0} became {d1}, scale {s}");
+        }
+        let basis = [Coor4D([0., 0., 0., 0.]), Coor4D([1., 0., 0., 0.]), Coor4D([0., 1., 0., 0.]), Coor4D([0., 0., 1., 0.])];
+        if let Ok((_, b)) = apply_def(&def, Fwd, &basis) {
+            let col = |k: usize| [(b[k][0] - b[0][0]) / s, (b[k][1] - b[0][1]) / s, (b[k][2] - b[0][2]) / s];
+            let (c1, c2, c3) = (col(1), col(2), col(3));
+            let dot = |a: [f64; 3], b: [f64; 3]| a[0] * b[0] + a[1] * b[1] + a[2] * b[2];
+            let det = c1[0] * (c2[1] * c3[2] - c2[2] * c3[1]) - c2[0] * (c1[1] * c3[2] - c1[2] * c3[1]) + c3[0] * (c1[1] * c2[2] - c1[2] * c2[1]);
+            let bad = (dot(c1, c1) - 1.0).abs().max((dot(c2, c2) - 1.0).abs()).max((dot(c3, c3) - 1.0).abs()).max(dot(c1, c2).abs()).max(dot(c1, c3).abs()).max(dot(c2, c3).abs());
+            // the translation (up to 1000) costs digits when the columns are recovered by differences
+            if bad > 1e-9 || (det - 1.0).abs() > 1e-9 {
+                return format!("oracle FAIL rotation matrix not a proper rotation: defect {bad:e}, det {det}");
+            }
+        }
+    }
+    // (6) small angle: position vector with r = coordinate frame with -r, bit for bit
+    if !h.exact && h.rotated() {
+        let mut g = crate::gens::c07::HSet { pv: !h.pv, r: [-h.r[0], -h.r[1], -h.r[2]], dr: [-h.dr[0], -h.dr[1], -h.dr[2]], t: h.t, dt: h.dt, s: h.s, ds: h.ds, exact: false, t_epoch: h.t_epoch, t_obs: h.t_obs };
+        g.pv = !h.pv;
+        if let Ok((_, o2)) = apply_def(&g.scalar_def(true), Fwd, &data) {
+            if dump_data(&o2) != dump_data(&out) {
+                return format!("oracle FAIL conventions: {} differs from {}", def, g.scalar_def(true));
+            }
+        }
+    }
+    // (7) fixing t_obs is the same as giving every tuple that epoch
+    if let Some(tobs) = h.t_obs {
+        let at: Vec<Coor4D> = data.iter().map(|c| Coor4D([c[0], c[1], c[2], tobs])).collect();
+        match apply_def(&h.scalar_def(false), Fwd, &at) {
+            Ok((_, o2)) => {
+                for (a, b) in out.iter().zip(o2.iter()) {
+                    for i in 0..3 {
+                        if (a[i] - b[i]).abs() > 1e-9 * (1.0 + a[i].abs() * 1e-7) {
+                            return format!("oracle FAIL t_obs: {} gives {} but epoch {tobs} on the tuples gives {}", def, a[i], b[i]);
+                        }
+                    }
+                }
+            }
+            Err(e) => return format!("oracle FAIL {e}"),
+        }
+    }
+    // (8) the inverse undoes the forward: exactly in exact mode, to second order otherwise
+    match apply_def(&def, Inv, &out) {
+        Ok((_, back)) => {
+            for (c, b) in data.iter().zip(back.iter()) {
+                let size = c[0].abs().max(c[1].abs()).max(c[2].abs()).max(1.0);
+                let t = if h.dynamic() { h.t_obs.unwrap_or(c[3]) } else { h.t_epoch };
+                let dt = t - h.t_epoch;
+                let angle = (0..3).map(|i| ((h.r[i] + h.dr[i] * dt) * arcsec).abs()).fold(0.0f64, f64::max);
+                let tol = if h.exact { 1e-6 } else { 4.0 * angle * angle * size + 1e-6 };
+                for i in 0..3 {
+                    if (c[i] - b[i]).abs() > tol {
+                        return format!("oracle FAIL roundtrip: {} came back as {} (tol {tol:e}) under {def}", c[i], b[i]);
+                    }
+                }
+            }
+        }
+        Err(e) => return format!("oracle FAIL {e}"),
+    }
+    "oracle pass".to_string()
+}
+
+// ----- C07 (last clause): molodensky against the cartesian three-parameter path ------------
+
+/// fields: abridged(0/1), ellps_0, ellps_1, dx, dy, dz (hex), geographic points (rad, rad, m, t)
+/// prints the largest disagreement in metres; the check compares it with the tolerance
+fn oracle_c07m(fields: &[&str]) -> String {
+    let abridged = fields[0] == "1";
+    let (e0, e1) = (fields[1], fields[2]);
+    let (dx, dy, dz) = (parse_f(fields[3]), parse_f(fields[4]), parse_f(fields[5]));
+    let tol = parse_f(fields[6]);
+    let data = parse_data(fields[7]);
+    let mdef = format!("molodensky ellps_0={e0} ellps_1={e1} dx={dx} dy={dy} dz={dz}{}", if abridged { " abridged" } else { "" });
+    let cdef = format!("cart ellps={e0} | helmert x={dx} y={dy} z={dz} | cart inv ellps={e1}");
+    let (_, m) = match apply_def(&mdef, Fwd, &data) {
+        Ok(x) => x,
+        Err(e) => return format!("oracle FAIL {e}"),
+    };
+    let (_, c) = match apply_def(&cdef, Fwd, &data) {
+        Ok(x) => x,
+        Err(e) => return format!("oracle FAIL {e}"),
+    };
+    let a = 6378137.0;
+    let mut worst = 0.0f64;
+    for (p, q) in m.iter().zip(c.iter()) {
+        let dn = (p[1] - q[1]).abs() * a;
+        let de = (p[0] - q[0]).abs() * a * q[1].cos().abs();
+        let du = if abridged { 0.0 } else { (p[2] - q[2]).abs() };
+        worst = worst.max(dn).max(de).max(du);
+    }
+    if worst.is_nan() || worst > tol {
+        return format!("oracle FAIL molodensky differs from the cartesian path by {worst:.4} m (tolerance {tol} m): {mdef}");
+    }
+    format!("oracle pass worst={worst:.5}")
 }
